@@ -21,6 +21,7 @@ pub struct OpW {
     pub detach: u32,
     pub release: u32,
     pub opengate: u32,
+    pub rewake: u32,
     pub waitfor: u32,
     pub yield_: u32,
     pub suspend: u32,
@@ -35,7 +36,7 @@ pub struct OpW {
 
 impl Default for OpW {
     fn default() -> OpW {
-        OpW { desync: 10, sync: 8, trysync: 4, futdesync: 6, futsync: 4, after: 3, await_: 8, syncwait: 2, pollonce: 3, dropfut: 2, detach: 1, release: 1, opengate: 4, waitfor: 2, yield_: 2, suspend: 0, awaitsuspend: 0, resume: 0, dropresumer: 0, pipein: 0, pipe: 0, consume: 0, droppipe: 0 }
+        OpW { desync: 10, sync: 8, trysync: 4, futdesync: 6, futsync: 4, after: 3, await_: 8, syncwait: 2, pollonce: 3, dropfut: 2, detach: 1, release: 1, opengate: 4, rewake: 1, waitfor: 2, yield_: 2, suspend: 0, awaitsuspend: 0, resume: 0, dropresumer: 0, pipein: 0, pipe: 0, consume: 0, droppipe: 0 }
     }
 }
 
@@ -70,6 +71,10 @@ pub enum Shape {
     Panic,
     /// C17: pool maximum changes between phases
     PoolChange,
+    /// C13: a suspend / await / (work) / resume sequence is spliced into one caller of an ordinary program
+    Suspend,
+    /// C16: a pipe / (work) / drop-output sequence is spliced into one caller; producers rarely close
+    PipeDrop,
 }
 
 #[derive(Clone, Debug)]
@@ -190,6 +195,7 @@ pub fn op_strategy(p: &Profile) -> BoxedStrategy<Op> {
         (w.detach, u8s.prop_map(|slot| Op::Detach { slot }).boxed()),
         (w.release, u8s.prop_map(|o| Op::Release { o }).boxed()),
         (w.opengate, u8s.prop_map(|g| Op::OpenGate { g }).boxed()),
+        (w.rewake, u8s.prop_map(|g| Op::Rewake { g }).boxed()),
         (w.waitfor, (u8s, u8s, prop::bool::ANY).prop_map(|(caller, idx, e)| Op::WaitFor { caller, idx, ev: if e { Ev::End } else { Ev::Ret } }).boxed()),
         (w.yield_, Just(Op::Yield).boxed()),
         (w.suspend, (u8s, u8s).prop_map(|(o, slot)| Op::Suspend { o, slot, id: 0 }).boxed()),
@@ -236,7 +242,7 @@ pub fn cfg_strategy(p: &Profile) -> BoxedStrategy<Cfg> {
 }
 
 fn wakers_strategy(p: &Profile) -> BoxedStrategy<Vec<Vec<WOp>>> {
-    let wop = prop_oneof![2 => Just(WOp::Yield), 3 => any::<u8>().prop_map(|g| WOp::Open { g })];
+    let wop = prop_oneof![2 => Just(WOp::Yield), 3 => any::<u8>().prop_map(|g| WOp::Open { g }), 1 => any::<u8>().prop_map(|g| WOp::Rewake { g })];
     vec(vec(wop, 1..=4), p.wakers.0..=p.wakers.1).boxed()
 }
 
@@ -260,5 +266,7 @@ pub fn case_strategy(p: &Profile) -> BoxedStrategy<Case> {
         Shape::Gated => crate::profiles::gated_case(&p),
         Shape::Panic => crate::profiles::panic_case(&p),
         Shape::PoolChange => crate::profiles::poolchange_case(&p),
+        Shape::Suspend => crate::profiles::suspend_case(&p),
+        Shape::PipeDrop => crate::profiles::pipedrop_case(&p),
     }
 }
